@@ -210,6 +210,12 @@ theorem parabola_vertex_value (b c d : Rat) (hb : b ≠ 0) : segEval 0 b c d (-c
 theorem stationary_inside_window (o : Obj) (j : Nat) (lo hi s : Rat) (h : s ∈ o.stationaryValues j lo hi) :
     ∃ w, lo < w ∧ w < hi ∧ s = o.cubicAt j w := mem_stationaryValues h
 
+/-- limits in OPPOSITE extrapolation zones in one call: the candidate set is the UNION of the stationary values of both continued
+    edge cubics — `Local_Minimum` bounds every member of `statL ++ statR` from below, `Local_Maximum` from above -/
+theorem extVal_stationary_union (o : Obj) (v1 v2 fl fr : Rat) (i1 i2 : Nat) (s : Rat) (hs : s ∈ statL o v1 v2 ++ statR o v1 v2) :
+    extVal o false v1 v2 fl fr i1 i2 ≤ s ∧ s ≤ extVal o true v1 v2 fl fr i1 i2 :=
+  extVal_stationary o v1 v2 fl fr i1 i2 s (List.mem_append.mp hs)
+
 /-- **the extrema are attained on `[x1,x2]`**: each result is the value `Interpolate` returns at some
     abscissa of the interval — a limit, a knot between the limits, or (fix 51ca844) a stationary point of the
     continued edge cubic strictly between an extrapolated limit and the end knot — for all limits `Locate`
